@@ -94,7 +94,16 @@ def expected_subtype(sh, super_kind, rel):
 
 @st.composite
 def cases(draw):
-    src = draw(st.sampled_from(['load', 'load', 'history']))
+    src = draw(st.sampled_from(['load', 'load', 'history', 'late']))
+    if src == 'late':
+        # instances first (plain values in the referential attributes), then batch_relate() + formalize(); afterwards
+        # some links are removed through the API, so what an identifying referential attribute reads has changed
+        from . import c01_roundtrip
+        c = draw(c01_roundtrip.cases())
+        nl = len(c['pop']['links'])
+        return {'source': 'late', 'schema': c['schema'], 'pop': c['pop'], 'unset': [], 'late': True, 'drop': [],
+                'unlink': sorted(draw(st.sets(st.integers(0, max(nl - 1, 0)), max_size=3))) if nl else [],
+                'restr': draw(restrictions()), 'late_ids': draw(late_ids())}
     if src == 'history':
         h = draw(c02_links.history_cases())
         h['source'] = 'history'
@@ -156,6 +165,28 @@ def run_case(case, res=None):
             if op is not None:
                 r.apply(op)
         m, sh = r.m, r.sh
+        text = None
+    elif case['source'] == 'late':
+        from . import c01_roundtrip
+        if case['pop'].get('unresolvable'):
+            if res is not None:
+                res.discarded['population not expressible by key values'] += 1
+            return 0, 0
+        try:
+            m, insts = c01_roundtrip.build_m0_late(case)
+        except Exception as e:
+            fail('harness-build-late:' + exc_bucket(e), repr(e))
+        links = [l for li, l in enumerate(case['pop']['links'])]
+        for li in case.get('unlink', []):
+            if li < len(links) and links[li] is not None:
+                i, s_, t_ = links[li]
+                a = sc.assocs[i]
+                try:
+                    xtuml.unrelate(insts[a['src'].upper()][s_], insts[a['tgt'].upper()][t_], a['rel'], a['src_phrase'])
+                except Exception as e:
+                    fail('unrelate-exception:' + exc_bucket(e), repr(e))
+                links[li] = None
+        sh, _recs = popgen.shadow_from_links(case['schema'], case['pop']['rows'], [l for l in links if l is not None])
         text = None
     else:
         try:
